@@ -88,8 +88,8 @@ func (t *trTranslator) builderMethods(u *trUnit, pos token.Pos) map[string]*trBu
 				continue
 			}
 			sig := fo.Type().(*types.Signature)
-			if sig.Variadic() {
-				continue
+			if sig.Variadic() || !fo.Exported() {
+				continue // (an unexported method cannot be called from another package)
 			}
 			m := &trBuilderMethod{ctor: fo.Name(), onRow: tn == "Row"}
 			if m.onRow {
@@ -188,8 +188,8 @@ func (c *trCtx) builderCallInfo(x *ast.CallExpr) (*trBuilderMethod, ast.Expr) {
 		return nil, nil
 	}
 	u := c.t.unitOf[trTablePath]
-	if u == nil {
-		return nil, nil
+	if u == nil || u == c.unit() {
+		return nil, nil // inside package table itself the methods are the functions they are
 	}
 	m := c.t.builderMethods(u, x.Pos())[tn+"."+sel.Sel.Name]
 	if m == nil {
@@ -342,7 +342,7 @@ func (c *trCtx) builderAssignedIn(x *ast.CallExpr, mark func(ast.Expr)) {
 		return
 	}
 	rt := c.typeOfOrNil(sel.X)
-	if !trIsBuilderRoot(rt) && !trIsBuilderRow(rt) {
+	if !trIsBuilderRoot(rt) && !trIsBuilderRow(rt) || c.unit() == c.t.unitOf[trTablePath] {
 		return
 	}
 	var root ast.Expr
